@@ -319,6 +319,105 @@ func runQueryCase(port, maxTTL, proto, method string, hasPort, hasTTL, hasProto,
 	return in, L(sxInt(0), sxInt(int64(protoCode(p.Protocol))), sxInt(int64(p.MinTTL)), sxInt(int64(p.MaxTTL)), sxInt(int64(p.Port)), sxInt(int64(methodCode(string(p.TCPMethod)))))
 }
 
+// ---- kind 25: command-line flags reach the runs ------------------------------------------------------
+
+// runCLIFlagsCase runs the real command with every flag given explicitly and records, at the per-run seam, how many
+// traceroute runs and end-to-end probes were started and with which parameters.
+func runCLIFlagsCase(t *testing.T, proto, method string, q, e2e, timeoutMs, maxTTL, port int, rdns, skip bool) (sx, sx) {
+	var out sx
+	synctest.Test(t, func(t *testing.T) {
+		var mu sync.Mutex
+		nReg, nE2e := 0, 0
+		var seen []int64
+		restore := traceroute.VerifSetRunOnce(func(ctx context.Context, p traceroute.TracerouteParams, dport int) (*result.TracerouteRun, error) {
+			time.Sleep(time.Millisecond)
+			mu.Lock()
+			if p.MinTTL == p.MaxTTL {
+				nE2e++
+			} else {
+				nReg++
+				seen = []int64{int64(p.Timeout), int64(protoCode(p.Protocol)), int64(methodCode(string(p.TCPMethod))), int64(p.MaxTTL), int64(dport), b2i(p.ReverseDns), b2i(p.SkipPrivateHops), b2i(p.CollectSourcePublicIP), int64(p.MinTTL), int64(p.Delay)}
+			}
+			mu.Unlock()
+			ip := net.IPv4(127, 0, 0, 1)
+			return &result.TracerouteRun{Source: result.TracerouteSource{IPAddress: ip, Port: 40000}, Destination: result.TracerouteDestination{IPAddress: ip, Port: uint16(dport)},
+				Hops: []*result.TracerouteHop{{TTL: p.MaxTTL, IPAddress: ip, RTT: 0.5, IsDest: true}}}, nil
+		})
+		defer restore()
+		args := []string{"--proto", proto, "--tcp-method", method, "-q", strconv.Itoa(q), "-Q", strconv.Itoa(e2e), "--timeout", strconv.Itoa(timeoutMs), "--max-ttl", strconv.Itoa(maxTTL),
+			"--port", strconv.Itoa(port), fmt.Sprintf("--reverse-dns=%v", rdns), fmt.Sprintf("--skip-private-hops=%v", skip), "--source-public-ip=false", "--ipv6=false", "127.0.0.1"}
+		status := 0
+		func() {
+			defer func() {
+				if r := recover(); r != nil {
+					status = 2
+				}
+			}()
+			if _, err := runCLI(args); err != nil {
+				status = 1
+			}
+		}()
+		synctest.Wait()
+		mu.Lock()
+		ss := sxList{}
+		for _, v := range seen {
+			ss = append(ss, sxInt(v))
+		}
+		out = L(sxInt(int64(status)), sxInt(int64(nReg)), sxInt(int64(nE2e)), ss)
+		mu.Unlock()
+	})
+	return L(sxInt(25), sxInt(int64(protoCode(proto))), sxInt(int64(methodCode(method))), sxInt(int64(q)), sxInt(int64(e2e)), sxInt(int64(timeoutMs)), sxInt(int64(maxTTL)), sxInt(int64(port)), sxBool(rdns), sxBool(skip)), out
+}
+
+func b2i(b bool) int64 {
+	if b {
+		return 1
+	}
+	return 0
+}
+
+// ---- kind 24: the remaining HTTP query parameters (counts, timeout, flags) ---------------------------
+
+func optBool(s string, ok bool) sx {
+	if !ok {
+		return L()
+	}
+	if v, err := strconv.ParseBool(s); err == nil {
+		return L(sxBool(v))
+	}
+	return L()
+}
+
+func runQueryRestCase(tq, tmo, e2e string, hasTq, hasTmo, hasE2e bool, flags [4]string, hasFlag [4]bool) (sx, sx) {
+	q := url.Values{}
+	q.Set("target", "127.0.0.1")
+	if hasTq {
+		q.Set("traceroute-queries", tq)
+	}
+	if hasTmo {
+		q.Set("timeout", tmo)
+	}
+	if hasE2e {
+		q.Set("e2e-queries", e2e)
+	}
+	names := [4]string{"ipv6", "reverse-dns", "source-public-ip", "skip-private-hops"}
+	fl := sxList{}
+	for i, n := range names {
+		if hasFlag[i] {
+			q.Set(n, flags[i])
+		}
+		fl = append(fl, optBool(flags[i], hasFlag[i]))
+	}
+	u := &url.URL{Path: "/traceroute", RawQuery: q.Encode()}
+	p, err := server.VerifParseTracerouteParams(u)
+	in := L(sxInt(24), optInt(tq, hasTq), optInt(tmo, hasTmo), optInt(e2e, hasE2e), fl)
+	if err != nil {
+		return in, L(sxInt(1))
+	}
+	return in, L(sxInt(0), sxInt(int64(p.TracerouteQueries)), sxInt(int64(p.Timeout)), sxInt(int64(p.E2eQueries)),
+		L(sxBool(p.WantV6), sxBool(p.ReverseDns), sxBool(p.CollectSourcePublicIP), sxBool(p.SkipPrivateHops)), sxInt(int64(p.MinTTL)), sxInt(int64(p.Delay)))
+}
+
 // ---- kind 23: the endpoint an HTTP query's target text stands for is the endpoint the request would probe ----
 
 // runQueryTargetCase parses the query with the server's parser, then resolves what it handed on (hostname, port; 0 = the
@@ -702,6 +801,13 @@ func runMethodPropagationCase(t *testing.T, proto, method string, q, n int) (sx,
 	return L(sxInt(22), sxInt(int64(protoCode(proto))), sxInt(int64(methodCode(method))), sxInt(int64(q)), sxInt(int64(n))), out
 }
 
+func reps25(e labEnv) int {
+	if e.thorough() {
+		return 6
+	}
+	return 1
+}
+
 func labPar(e labEnv) {
 	r := newRng(e.seed)
 	w, err := newCaseWriter(filepath.Join(e.out, "par.cases"))
@@ -751,6 +857,33 @@ func labPar(e labEnv) {
 			r.bool(), r.bool(), r.bool(), r.bool())
 		w.put(in, out)
 		tags["query"]++
+	}
+	// kind 25
+	for i := 0; i < 40*reps25(e); i++ {
+		proto := pick(r, []string{"udp", "tcp", "icmp"})
+		method := "syn"
+		if proto == "tcp" {
+			method = pick(r, []string{"syn", "sack", "prefer_sack"})
+		}
+		in, out := runCLIFlagsCase(e.t, proto, method, pick(r, []int{1, 2, 3, 5}), pick(r, []int{0, 1, 3, 7}), pick(r, []int{1, 100, 450, 3000}), pick(r, []int{2, 5, 30, 255}),
+			pick(r, []int{1, 80, 33434, 65535}), r.bool(), r.bool())
+		w.put(in, out)
+		tags["cli_flags"]++
+	}
+	// kind 24
+	{
+		ints := []string{"0", "1", "3", "7", "50", "200", "3000", "-1", "65536", "abc", "", "2.5", " 4"}
+		bools := []string{"true", "false", "1", "0", "t", "F", "TRUE", "yes", "", "2"}
+		for i := 0; i < 300; i++ {
+			var fl [4]string
+			var hf [4]bool
+			for k := range fl {
+				fl[k], hf[k] = pick(r, bools), r.intn(3) != 0
+			}
+			in, out := runQueryRestCase(pick(r, ints), pick(r, ints), pick(r, ints), r.bool(), r.bool(), r.bool(), fl, hf)
+			w.put(in, out)
+			tags["query_rest"]++
+		}
 	}
 	// kind 23: address literals whose tail looks like a port, bracketed and bare, with and without an explicit port
 	{
